@@ -133,7 +133,12 @@ def runModel (pathOk : Bool) (gs : Bool) (o0 : Obs) (steps : List Step) : String
       let env : Env := { evalOk := fun _ => st.bit, setPathOk := fun _ _ => pathOk }
       let (s', r) := handle env s st.line
       s := s'
-      classes := classes ++ [className r]
+      -- Scope.SetValue on a container path is C05's domain: ok and error are not told apart
+      let dotted := match fields st.line with
+        | c :: _ :: v :: _ :: _ => c == str "inject" && v.contains 46
+        | _ => false
+      let cl := className r
+      classes := classes ++ [if dotted && (cl == "ok" || cl == "error") then "E" else cl]
     match st.obs with
     | none => pure ()
     | some o =>
@@ -171,13 +176,12 @@ def runCase (payload : String) : String :=
     match parseObs o0, steps.mapM parseStep with
     | some o0, some steps =>
       let a := runModel true (gs = "1") o0 steps
-      let b := runModel false (gs = "1") o0 steps
       let nt := match steps.getLast? with
         | some st => match (fields st.line).head? with
           | some c => (lookupCmd c).isSome
           | none => false
         | none => false
-      a ++ (if a = b then "" else "\tspec=" ++ b) ++ (if nt then "\tnt=1" else "")
+      a ++ (if nt then "\tnt=1" else "")
     | _, _ => "bad-payload"
   | _ => "bad-payload"
 
